@@ -105,6 +105,15 @@ def eval_case(case):
         l, N = case['l'], case['N']
         mod = importlib.import_module(f'TidalPy.tides.eccentricity_funcs.orderl{l}')
         fn = getattr(mod, f'eccentricity_funcs_trunc{N}')
+        # the table that is judged is the one returned by a SECOND call, after the caller has emptied the first result (no state may be
+        # shared between calls through module-level or default-argument containers)
+        first = fn(E)
+        try:
+            for p_ in list(first.keys()):
+                first[p_].clear()
+            first.clear()
+        except Exception:
+            pass
         res = fn(E)
         viol, n = compare_table(l, N, res, cnt)
         obs = {'l': l, 'N': N, 'modes_in_table': n, **cnt}
@@ -159,8 +168,12 @@ def eval_case(case):
             return {'status': 'inconclusive', 'nontrivial': False, 'violations': [], 'obs': {'note': 'function is not a numba dispatcher'}}
         rng = np.random.default_rng([case['seed'], 8, l, N])
         ecc = np.concatenate(([0.0, 1e-8, 0.5], rng.uniform(0, 0.8, 37)))
+        ecc0 = ecc.copy()
         a = fn(ecc)
         b = pyf(ecc)
+        if not np.array_equal(ecc, ecc0):
+            viol.append({'key': f'ecc-input-modified-l{l}-N{N}', 'desc': f'eccentricity_funcs_trunc{N} (l={l}) changed the eccentricity array passed by the caller'})
+            ecc = ecc0.copy()
         worst = 0.
         ka = sorted((int(p), int(q)) for p in a for q in a[p])
         kb = sorted((int(p), int(q)) for p in b for q in b[p])
